@@ -4,7 +4,7 @@ from . import conn
 from .c02 import incremental_tolerated
 from .c15 import block
 from .conn import leaves, ret_kind
-from .util import const_of, is_call, last_seg, look, norm, option_is_some, truth
+from .util import payload_of, const_of, is_call, last_seg, look, norm, option_is_some, truth
 
 EXPLANATION = (
     "Static decision of the structural agreement of the two parsers: both reach RequestLine::try_from "
@@ -97,7 +97,7 @@ def rejections(ctx):
 
     def rl_end(t):
         t = look(t)
-        return t[0] == "field" and t[1][0] == "downcast" and t[1][2] == "Some" and first_crlf(t[1][1])
+        return payload_of(t) is not None and first_crlf(payload_of(t))
 
     def rl_slice(t):
         t = look(t)
@@ -195,9 +195,9 @@ def rejections(ctx):
             ctx.fail("R14.3", "accept|shape", "Ok does not carry a Request literal", fn.loc(lf.bb))
             continue
         rl = r[3][names.index("request_line")]
-        ok_rl = rl[0] == "payload" and is_call(rl[1], "request::RequestLine::try_from") and rl_slice(rl[1][2][0])
+        ok_rl = payload_of(rl) is not None and is_call(payload_of(rl), "request::RequestLine::try_from") and rl_slice(payload_of(rl)[2][0])
         h = look(r[3][names.index("headers")])
-        ok_h = is_call(h, "default") or (h[0] == "payload" and is_call(h[1], "common::headers::Headers::try_from"))
+        ok_h = is_call(h, "default") or (payload_of(h) is not None and is_call(payload_of(h), "common::headers::Headers::try_from"))
         b = look(r[3][names.index("body")])
         ok_b = (b[0] == "agg" and b[2] == "None") or (b[0] == "agg" and b[2] == "Some" and is_call(look(b[3][0]), "common::Body::new"))
         fl = look(r[3][names.index("files")])
